@@ -43,16 +43,16 @@ def zeroOf : Kind → Cell
   | .str => .str []
   | _ => .null
 
-/-- `push_present(new_present, count)` — NOTE the outer `if let Some(all_present) = self.present.as_mut()`:
-    when the buffer has no bitmap yet, a supplied null map is IGNORED. -/
+/-- `push_present(new_present, count)`:
+    `if self.present.is_none() && new_present.is_some() { self.init_present() }` (typed arm: the rows pushed so far
+    are all present), then the bits of the new rows are copied / set if the buffer has a bitmap. -/
 def pushPresent (present : Option (List Nat)) (newp : Option (List Nat)) (length count : Nat) :
     Option (List Nat) :=
-  match present with
-  | none => none
-  | some all =>
-    match newp with
-    | some np => some (copyBits all np length 0 count)
-    | none => some (setRange all length count)
+  match present, newp with
+  | none, none => none
+  | none, some np => some (copyBits (initAllPresent length) np length 0 count)
+  | some all, some np => some (copyBits all np length 0 count)
+  | some all, none => some (setRange all length count)
 
 /-- `push_ints` / `push_floats` / `push_strings` (`k` = the kind pushed, `vals` its cells). -/
 def pushTyped (k : Kind) (b : Buf) (vals : List Cell) (newp : Option (List Nat)) : Except Fault Buf :=
@@ -107,21 +107,6 @@ def Buf.cells (b : Buf) : List Cell :=
     match b.present with
     | none => b.data
     | some bm => maskFrom bm 0 b.data
-
-/-! ### where the re-push is known to be wrong (finding `compaction-builder-nullmap-dropped`) -/
-
-/-- after this push the buffer has a bitmap: it has one already, or it is `Empty` with NULL rows (`init_present`) -/
-def willHaveBitmap (b : Buf) : Bool := b.present.isSome || (b.kind == .empty && decide (b.length > 0))
-
-/-- some nullable value of the sequence is pushed while the buffer has no bitmap: `push_present` drops its null
-    map.  Classifier of the finding (driver) and excluded by the hypothesis of `C07_rebuild_cells_partial`. -/
-def dropsNullMap : Buf → List SVal → Bool
-  | _, [] => false
-  | b, v :: vs =>
-    if v.present.isSome && !willHaveBitmap b then true
-    else match pushDecoded b v with
-      | .ok b' => dropsNullMap b' vs
-      | .error _ => false
 
 /-- the basic type of a decoded value (`none`: the all-NULL value, compatible with every buffer) -/
 def valKind (v : SVal) : Option Kind :=
